@@ -84,7 +84,8 @@ static inline bool rxv_denotes(const InstructionByteCode* ibc, const NativeRegis
 		return ibc->type == InstructionType_CBRANCH && ibc->idst == &n->r[d] && ibc->target == lw
 			&& ibc->imm == spec_cimm(imm32, mod) && ibc->memMask == (uint32_t)spec_cbranch_mask(mod);
 	case S_CFROUND:
-		return ibc->type == InstructionType_CFROUND && ibc->isrc == &n->r[s] && (ibc->imm & 63) == (imm32 & 63);
+		/* the executor rotates by ibc->imm unmasked, so the decoder must deliver the count already reduced to 0..63 */
+		return ibc->type == InstructionType_CFROUND && ibc->isrc == &n->r[s] && ibc->imm == (imm32 & 63);
 	case S_ISTORE:
 		return ibc->type == InstructionType_ISTORE && ibc->idst == &n->r[d] && ibc->isrc == &n->r[s]
 			&& ibc->imm == simm && ibc->memMask == spec_write_mask(mod);
